@@ -13,7 +13,9 @@ from . import sched as S
 
 
 class Lab:
-    def __init__(self, servertype="multiplex", commtimeout=0.0, poolsize=6, validator="accept"):
+    def __init__(self, servertype="multiplex", commtimeout=0.0, poolsize=6, validator="accept", validator_install="class"):
+        """validator_install: "class" - the handshake validator is an override in the Daemon subclass; "instance" - it is assigned to
+        the daemon object after construction (the class keeps the library's default, which accepts everybody)"""
         import Pyro5.api as P
         from Pyro5 import config, server, core
         from Pyro5.callcontext import current_context
@@ -51,7 +53,8 @@ class Lab:
                 if v.startswith("raise:"):
                     raise lab.exception_for(v[6:])
                 if v.startswith("return:"):
-                    return {"None": None, "False": False, "0": 0, "list": [1, 2], "str": "welcome"}[v[7:]]
+                    import threading as _threading
+                    return {"None": None, "False": False, "0": 0, "list": [1, 2], "str": "welcome", "lock": _threading.Lock()}[v[7:]]
                 return "hello"
 
             def clientDisconnect(self, conn):
@@ -65,7 +68,13 @@ class Lab:
         self.hook_raises = False
         self.daemon_annotations = {}
         self.current_context = current_context
-        self.daemon = LabDaemon(host="127.0.0.1", interface=LabDaemonObject)
+        if validator_install == "instance":
+            scripted = LabDaemon.validateHandshake
+            LabDaemonPlain = type("LabDaemonPlain", (P.Daemon,), {"clientDisconnect": LabDaemon.clientDisconnect, "annotations": LabDaemon.annotations})
+            self.daemon = LabDaemonPlain(host="127.0.0.1", interface=LabDaemonObject)
+            self.daemon.validateHandshake = lambda conn, data: scripted(self.daemon, conn, data)
+        else:
+            self.daemon = LabDaemon(host="127.0.0.1", interface=LabDaemonObject)
         self.driver = memnet.ServerDriver(self.daemon)
         self.core = core
 
